@@ -9,7 +9,7 @@ ENV = dict(os.environ, GOFLAGS="-mod=mod", GOPROXY="off", GOSUMDB="off", GOTOOLC
 
 def sh(cmd, cwd, timeout=1500):
     try:
-        p = subprocess.run(cmd, shell=True, cwd=cwd, env=ENV, capture_output=True, text=True, timeout=timeout)
+        p = subprocess.run(cmd, shell=True, cwd=cwd, env=ENV, capture_output=True, text=True, errors="replace", timeout=timeout)
         return p.returncode, (p.stdout + p.stderr)[-3000:]
     except subprocess.TimeoutExpired as e:
         return 124, "timeout"
@@ -33,12 +33,11 @@ def main():
             script = open(os.path.join(ddir, "demo.sh")).read()
             m = re.search(r"/tmp/wt\d?/C\d\d", script)
             tmpd = tempfile.mkdtemp(prefix="demo-" + mid + "-", dir="/tmp")
-            for f in os.listdir(ddir):
-                if os.path.isfile(os.path.join(ddir, f)):
-                    shutil.copy(os.path.join(ddir, f), tmpd)
+            shutil.copytree(ddir, tmpd, dirs_exist_ok=True)
             if m:
-                for f in os.listdir(tmpd):
-                    p = os.path.join(tmpd, f)
+                for root, _, fs in os.walk(tmpd):
+                  for f in fs:
+                    p = os.path.join(root, f)
                     try:
                         s = open(p).read().replace(m.group(0), wt).replace(ddir, tmpd)
                         open(p, "w").write(s)
